@@ -277,8 +277,22 @@ Lemma forced_new_combo_spec : forall st t,
 Proof.
   intros st t. unfold forced_new_combo, starts_combo, first_object, last_object_was_spinner.
   destruct (ho_last st) as [k|].
-  - rewrite has_flag_bit by reflexivity. cbn [orb]. apply orb_comm.
+  - rewrite !has_flag_bit by reflexivity. cbn [orb].
+    unfold type_is_spinner, kind_of_type.
+    destruct (flag_bit hot_circle k), (flag_bit hot_slider k), (flag_bit hot_spinner k),
+      (flag_bit hot_hold k), (flag_bit hot_new_combo t); reflexivity.
   - cbn [orb]. rewrite orb_true_r. reflexivity.
+Qed.
+
+(* the spinner test of the parser is the kind precedence applied to the remembered type *)
+Lemma last_object_was_spinner_spec : forall st,
+  last_object_was_spinner st =
+  match ho_last st with Some k => type_is_spinner k | None => false end.
+Proof.
+  intros st. unfold last_object_was_spinner. destruct (ho_last st) as [k|]; [|reflexivity].
+  rewrite !has_flag_bit by reflexivity. unfold type_is_spinner, kind_of_type.
+  destruct (flag_bit hot_circle k), (flag_bit hot_slider k), (flag_bit hot_spinner k),
+    (flag_bit hot_hold k); reflexivity.
 Qed.
 
 Theorem parse_hit_objects_spec : forall st line,
